@@ -511,12 +511,16 @@ func genToken(c *Ctx) {
 	// ---- 2. corruptions of sealed tokens
 	for si, sealed := range sealedSamples {
 		p := sampleIss[si]
+		sweep := c.Thorough() || p.name != "rsa3072"
 		e.offer("tok/tamper/identity", sealed)
 		bits := []uint{uint(si) % 8}
 		if c.Thorough() {
 			bits = []uint{0, 1, 2, 3, 4, 5, 6, 7}
 		}
 		for off := range sealed {
+			if !sweep {
+				break
+			}
 			for _, bit := range bits {
 				b := append([]byte{}, sealed...)
 				b[off] ^= 1 << bit
@@ -594,6 +598,20 @@ func genToken(c *Ctx) {
 			e.offer("tok/tamper/foreign-header-signed", e.signEnvelope(p, oh, tag, pl))
 		}
 		e.offer("tok/tamper/empty-header", e.signEnvelope(p, nil, tag, pl))
+		// headers that keep the prefix and key codec of the issuer's own header but differ afterwards
+		if len(hdr) >= 3 {
+			hv := [][]byte{hdr[:len(hdr)-1], append(append([]byte{}, hdr...), 0x00), append(append([]byte{}, hdr...), 0x71)}
+			last := append([]byte{}, hdr...)
+			last[len(last)-1] ^= 0x58 // dag-cbor 0x71 -> dag-json 0x0129's low byte, or any other encoding code
+			hv = append(hv, last)
+			mid := append([]byte{}, hdr...)
+			mid[len(mid)-2] ^= 0x01
+			hv = append(hv, mid, hdr[:3], hdr[:2])
+			for _, h2 := range hv {
+				e.offer("tok/tamper/header-variant-signed", e.signEnvelope(p, h2, tag, pl))
+				e.offer("tok/tamper/header-variant", rebuild(sig, ent{"h", basicnode.NewBytes(h2)}, ent{tag, pl}))
+			}
+		}
 		e.offer("tok/tamper/header-string", rebuild(sig, ent{"h", basicnode.NewString(string(hdr))}, ent{tag, pl}))
 		e.offer("tok/tamper/empty-signature", rebuild(nil, ent{"h", basicnode.NewBytes(hdr)}, ent{tag, pl}))
 		e.offer("tok/tamper/short-signature", rebuild(sig[:len(sig)/2], ent{"h", basicnode.NewBytes(hdr)}, ent{tag, pl}))
